@@ -128,12 +128,12 @@ let sev = function
   | ESetFilter l -> String.concat " " ("setfilter" :: List.map (fun x -> string_of_int (zi x)) l)
   | ELogReq (id, l) -> Printf.sprintf "logreq %d %d" (zi id) (zi l)
   | ELogCheck (l, b) -> Printf.sprintf "logcheck %d %s" (zi l) (sb b)
-  | ESub (q, u) -> Printf.sprintf "sub %s %d" (sq q) (i u)
-  | ERun (u, n) -> Printf.sprintf "run %d %d" (i u) (zi n)
+  | ESub (q, u, c) -> Printf.sprintf "sub %s %d %s" (sq q) (i u) (sb c)
+  | ERun (u, n, q) -> Printf.sprintf "run %d %d %s" (i u) (zi n) (sq q)
   | EMeth (a, u, n) -> Printf.sprintf "meth %d %d %d" (i a) (i u) (zi n)
   | EPrep (a, u, n) -> Printf.sprintf "prep %d %d %d" (i a) (i u) (zi n)
   | EEnd u -> Printf.sprintf "end %d" (i u)
-  | EDrop u -> Printf.sprintf "drop %d" (i u)
+  | EDrop (u, q, c) -> Printf.sprintf "drop %d %s %s" (i u) (match q with Some q -> sq q | None -> "-") (sb c)
   | EActor a -> Printf.sprintf "actor %d" (i a)
   | EOwnNew a -> Printf.sprintf "ownnew %d" (i a)
   | EOwnDrop a -> Printf.sprintf "owndrop %d" (i a)
@@ -172,7 +172,7 @@ let pev (ws : string list) : ev option =
   | ["dropbegin"] -> Some EDropBegin | ["~dropfields"] -> Some EDropFields
   | ["dropend"] -> Some EDropEnd | ["epilogue"] -> Some EEpilogue
   | ["clo"; u; c] -> Some (EClo (n u, n c))
-  | ["sub"; q; u] -> Some (ESub (pq q, n u))
+  | ["sub"; q; u; c] -> Some (ESub (pq q, n u, b c))
   | ["target"; u; a; x] -> Some (ETarget (n u, n a, b x))
   | ["retto"; r; u; x] -> Some (ERetTo (n r, n u, b x))
   | ["retsent"; r; v] -> Some (ERetSent (n r, n v))
@@ -183,11 +183,11 @@ let pev (ws : string list) : ev option =
   | "setfilter" :: l -> Some (ESetFilter (List.map z l))
   | ["logreq"; id; l] -> Some (ELogReq (z id, z l))
   | ["logcheck"; l; x] -> Some (ELogCheck (z l, b x))
-  | ["run"; u; t] -> Some (ERun (n u, z t))
+  | ["run"; u; t; q] -> Some (ERun (n u, z t, pq q))
   | ["meth"; a; u; t] -> Some (EMeth (n a, n u, z t))
   | ["prep"; a; u; t] -> Some (EPrep (n a, n u, z t))
   | ["end"; u] -> Some (EEnd (n u))
-  | ["drop"; u] -> Some (EDrop (n u))
+  | ["drop"; u; q; c] -> Some (EDrop (n u, (if q = "-" then None else Some (pq q)), b c))
   | ["actor"; a] -> Some (EActor (n a))
   | ["ownnew"; a] -> Some (EOwnNew (n a))
   | ["owndrop"; a] -> Some (EOwnDrop (n a))
